@@ -13,7 +13,16 @@ from .refmodel import inner
 
 DOCUMENTED_ERRORS = {-2, -3, -10, -11, -12}
 NUMPY2: typing.Counter[str] = collections.Counter()
-_NUMPY2_RE = re.compile(r"^E OverflowError Python integer -?\d+ out of bounds for u?int\d+")
+_NUMPY2_RE = re.compile(r"^E OverflowError (Python integer -?\d+ out of bounds for u?int\d+|Python int too large to convert to C long)")
+
+
+def exc_kind(line: str) -> str:
+    """'E <Type> <message>' -> stable discriminator: exception type + message with numbers and type names masked."""
+    p = line.split(" ", 2)
+    msg = p[2] if len(p) > 2 else ""
+    msg = re.sub(r"[A-Za-z_][\w]*(\.[A-Za-z_][\w]*)+(\.\d+\.\d+)?", "<T>", msg)
+    msg = re.sub(r"-?\d+", "<n>", msg)
+    return f"exception[{p[1]} {' '.join(msg.split()[:4])}]"
 
 
 def numpy2_incompat(line: str) -> bool:
@@ -135,7 +144,7 @@ def judge_S(ct, v, invalid, exp, segs, inexact, r, case) -> typing.Optional[str]
     if numpy2_incompat(line):
         return None
     if line.startswith("E "):
-        return f"exception:{line[:160]}"
+        return f"{exc_kind(line)}:{line[:160]}"
     if line.startswith("H "):
         raise core.HarnessError(f"harness protocol error: {line}")
     s = lab.parse_S(line)
@@ -233,7 +242,7 @@ def judge_D(ct, data, ev, econs, eerr, r, key) -> typing.Optional[str]:
     if numpy2_incompat(line):
         return None
     if line.startswith("E "):
-        return f"exception:{line[:160]}"
+        return f"{exc_kind(line)}:{line[:160]}"
     if line.startswith("H "):
         raise core.HarnessError(f"harness protocol error: {line}")
     d = lab.parse_D(line)
@@ -264,3 +273,209 @@ def judge_D(ct, data, ev, econs, eerr, r, key) -> typing.Optional[str]:
 def _short(v, n: int = 160) -> str:
     s = repr(v)
     return s if len(s) <= n else s[:n] + "..."
+
+
+# ----------------------------------------------------------------------------------------------------------------- C04
+def eval_c04(ctx: core.Ctx, ex: campaign.Executed, collect_fail):
+    """
+    (i) no sanitizer report / crash / leak / assertion; (ii) return code is success or a documented error;
+    (iii) a decode's (rc, consumed, value) is identical for every prior state of the destination (fresh, zeroed, poisoned,
+    pre-loaded with another value, object kept from earlier decodes); (iv) reduced-capacity builds never report more
+    elements than they have storage for.
+    """
+    job, L = ex.job, ex.lab
+    fresh: typing.Dict[typing.Tuple[str, int, str], str] = {}
+    for key, resp in ex.responses.items():
+        if key.startswith("py"):
+            continue
+        for ci, case in enumerate(job["cases"]):
+            r = resp[ci]
+            if r is None or case["op"] != "D" or case["mode"] != "F":
+                continue
+            if "line" in r:
+                fresh[(key, case["ti"], case["bytes"])] = r["line"]
+    for ci, case in enumerate(job["cases"]):
+        ct = L.ctypes[case["ti"]]
+        verdicts: typing.Dict[str, typing.Optional[str]] = {}
+        for key, resp in ex.responses.items():
+            if key.startswith("py"):
+                continue
+            r = resp[ci]
+            if r is None:
+                continue
+            reduced = key.startswith("c|") and key.endswith("|1") and bool(job.get("cap_overrides"))
+            m = None
+            if "crash" in r:
+                m = "crash:" + _san_kind(r["crash"]) + " " + r["crash"][:200]
+            elif "exit_failure" in r:
+                m = "exit-failure:" + _san_kind(r["exit_failure"]["stderr"]) + " " + r["exit_failure"]["stderr"][:200]
+            else:
+                line = r["line"]
+                if line.startswith("A "):
+                    m = f"assertion-fired:{line[:120]}"
+                elif line.startswith("H "):
+                    raise core.HarnessError(f"harness protocol error: {line}")
+                else:
+                    p = line.split()
+                    rc = int(p[1])
+                    if rc != 0 and rc not in DOCUMENTED_ERRORS:
+                        m = f"undocumented-return-code:{rc}"
+                    elif p[0] == "S" and len(p) > 3 and p[3] == "OVERSIZE":
+                        m = "reported-size-exceeds-buffer:"
+                    elif p[0] == "D" and rc == 0 and int(p[2]) > (0 if case["bytes"] == "-" else len(case["bytes"]) // 2):
+                        m = f"consumed-exceeds-supplied:{p[2]}"
+                    elif p[0] == "D" and rc == 0 and "e00ddcbae00ddcba" in p[3]:
+                        m = "count-exceeds-storage:decoded object claims more elements than its (reduced) capacity"
+                    elif p[0] == "D" and case["mode"] != "F":
+                        f = fresh.get((key, case["ti"], case["bytes"]))
+                        if f is not None and not _same_decode(ct, f, line):
+                            m = f"prior-state-influence[{case['mode']}]:fresh {f[:90]} vs {line[:90]}"
+            verdicts[key] = m
+            mode = case.get("mode", "-")
+            nontrivial = (
+                (case["op"] == "D" and mode != "F" and _has_var_or_union(ct))
+                or (case["op"] == "D" and (0 if case["bytes"] == "-" else len(case["bytes"]) // 2) < (inner(ct).bit_length_set.min + 7) // 8)
+                or (case["op"] == "S" and case["dom"] == "invalid")
+                or reduced
+            )
+            ctx.case(
+                ("c04", str(ct), key, case.get("words"), case.get("bytes"), mode, case.get("buf"), case.get("prior")),
+                nontrivial,
+                sample={"type": str(ct), "target": key, "op": case["op"], "mode": mode, "input": (case.get("bytes") or case.get("words"))[:48]},
+                classes=["op." + case["op"], "mode." + mode, "lang." + key.split("|")[0]] + (["reduced_capacity_build"] if reduced else []) + (["dom." + case["dom"]] if case["op"] == "S" else ["bytes." + case["cls"]]),
+            )
+        failed = [k for k, m in verdicts.items() if m]
+        passed = [k for k, m in verdicts.items() if not m]
+        if failed:
+            kinds = sorted({verdicts[k].split(":")[0] for k in failed})  # type: ignore
+            sig = f"C04|{discriminate(failed, passed)}|{'+'.join(kinds)}"
+            collect_fail(sig, f"type {ct} case {_short(case, 200)}: " + "; ".join(f"{k}: {verdicts[k]}" for k in failed[:3]), ex, ci, failed)
+
+
+def _san_kind(text: str) -> str:
+    for k in ("heap-buffer-overflow", "stack-buffer-overflow", "heap-use-after-free", "SEGV", "detected memory leaks", "runtime error", "attempting double-free", "alloc-dealloc-mismatch", "ASSERT"):
+        if k in text:
+            return "[" + k.replace(" ", "-") + "]"
+    return "[other]"
+
+
+def _same_decode(ct, a: str, b: str) -> bool:
+    pa, pb = a.split(), b.split()
+    if pa[1] != pb[1] or pa[2] != pb[2]:
+        return False
+    if pa[1] != "0":
+        return True
+    if pa[3] == pb[3]:
+        return True
+    va, vb = decode_words(ct, pa[3]), decode_words(ct, pb[3])
+    return va is not None and vb is not None and refmodel.values_equal(ct, va, vb)
+
+
+def _has_var_or_union(ct) -> bool:
+    t = inner(ct)
+    if isinstance(t, pydsdl.UnionType):
+        return True
+
+    def walk(dt) -> bool:
+        if isinstance(dt, pydsdl.VariableLengthArrayType):
+            return True
+        if isinstance(dt, pydsdl.ArrayType):
+            return walk(dt.element_type)
+        if isinstance(dt, pydsdl.CompositeType):
+            return _has_var_or_union(dt)
+        return False
+
+    return any(walk(f.data_type) for f in t.fields_except_padding)
+
+
+# ----------------------------------------------------------------------------------------------------------------- C03
+def eval_c03_cross(ctx: core.Ctx, ex: campaign.Executed, collect_fail):
+    """Cross-target / cross-option agreement -- no reference codec involved."""
+    job, L = ex.job, ex.lab
+    for ci, case in enumerate(job["cases"]):
+        ct = L.ctypes[case["ti"]]
+        outs: typing.Dict[str, typing.Any] = {}
+        for key, resp in ex.responses.items():
+            r = resp[ci]
+            if r is None:
+                continue
+            if "crash" in r:
+                outs[key] = ("crash",)
+                continue
+            line = r["line"]
+            if numpy2_incompat(line):
+                continue
+            if line.startswith("A "):
+                outs[key] = ("assert", line[:100])
+            elif line.startswith("E "):
+                outs[key] = ("exception", line[:100])
+            elif line.startswith("H "):
+                raise core.HarnessError(line)
+            elif case["op"] == "S":
+                s = lab.parse_S(line)
+                outs[key] = ("ok", s["bytes"]) if s["rc"] == 0 and not s.get("oversize") else ("error",)
+            else:
+                d = lab.parse_D(line)
+                outs[key] = ("ok", d["words"]) if d["rc"] == 0 else ("error",)
+        if len(outs) < 2:
+            continue
+        v = None
+        special = False
+        if case["op"] == "S":
+            v, _ = valuegen.from_words(ct, valuegen.hex_words(case["words"]))
+            feats = valuegen.value_features(ct, v)
+            # the specification fixes neither NaN payloads nor the rounding direction of inexact floats: such values are
+            # compared within one language only (C and C++ share the conversion routine)
+            special = bool(feats & {"v.nan", "v.inexact_float"})
+        groups: typing.Dict[str, typing.List[str]] = collections.defaultdict(list)
+        for key, o in outs.items():
+            if o[0] == "ok" and case["op"] == "D":
+                val = decode_words(ct, o[1])
+                rep = "ok:" + repr(_canon(ct, val))
+            elif o[0] == "ok":
+                rep = "ok:" + o[1].hex()
+            else:
+                rep = o[0]
+            groups[rep].append(key)
+        families = [["c", "cpp"], ["py"]] if special else [["c", "cpp", "py"]]
+        n_opt_sets = len({k for k in outs if k.startswith("c|")}) >= 2 or len({k for k in outs if k.startswith("cpp|")}) >= 2
+        nontrivial = len({k.split("|")[0] for k in outs}) >= 2 and n_opt_sets and any(g.startswith("ok:") and g.strip("ok:0") for g in groups)
+        ctx.case(
+            ("c03x", str(ct), case.get("words"), case.get("bytes"), sorted(outs)),
+            nontrivial,
+            sample={"type": str(ct), "op": case["op"], "input": (case.get("bytes") or case.get("words"))[:48], "targets": sorted(outs), "agreed_outcome": next(iter(groups))[:60]},
+            classes=["x.op." + case["op"], "x.targets=%d" % len(outs)] + (["x.special_float_within_language_only"] if special else []),
+        )
+        for fam in families:
+            sub = {rep: [k for k in keys if k.split("|")[0] in fam] for rep, keys in groups.items()}
+            sub = {rep: keys for rep, keys in sub.items() if keys}
+            if len(sub) > 1:
+                # minority outcome = suspect; describe the split
+                ordered = sorted(sub.items(), key=lambda kv: -len(kv[1]))
+                minority = [k for _, keys in ordered[1:] for k in keys]
+                majority = ordered[0][1]
+                kinds = "+".join(sorted({rep.split(":")[0] for rep in sub}))
+                sig = f"C03|cross|{case['op']}|{discriminate(minority, majority)}|{kinds}"
+                what = f"type {ct} {case['op']} input {(case.get('bytes') or case.get('words'))[:80]}: " + " VS ".join(f"{keys}: {rep[:100]}" for rep, keys in ordered)
+                collect_fail(sig, what, ex, ci, sorted(outs))
+        for key, o in outs.items():
+            if o[0] == "assert":
+                collect_fail(f"C03|assertion-fired|{key.split('|')[0]}", f"type {ct}: {o[1]} on {_short(case, 160)}", ex, ci, [key])
+
+
+def _canon(t, v):
+    """Canonical comparable form (NaN-ness only, -0.0 kept)."""
+    if isinstance(t, pydsdl.FloatType):
+        return "nan" if math.isnan(v) else repr(v)
+    if isinstance(t, pydsdl.PrimitiveType):
+        return int(v)
+    if isinstance(t, pydsdl.ArrayType):
+        return [_canon(t.element_type, e) for e in v]
+    t = inner(t)
+    if isinstance(t, pydsdl.UnionType):
+        (name, val), = v.items()
+        if name == "__tag__":
+            return {"__tag__": val}
+        f = [f for f in t.fields if f.name == name][0]
+        return {name: _canon(f.data_type, val)}
+    return {f.name: _canon(f.data_type, v[f.name]) for f in t.fields_except_padding}
